@@ -35,6 +35,8 @@ CLAIMED = {
             "Python int() accepts '_' in digit strings: known finding D18 (witness proved in Lean, replayed every run)"),
     'C13': ('Lean 4 theorems: exact file counts for every diff assembled from well-formed hunks with garbage between them and any unbordered newline (composition of the split_lines and hunk-parser theorems), skipped diffs leave the file unchanged, merge preserves other keys, change / top level report sums of what their children report, only metadata is touched, generation is idempotent; multibyte-encoding witness (D15) proved; random trees with ground truth by construction against the real generate_stats',
             'known finding D15: diffs in encodings that are not ASCII-compatible count 0'),
+    'C18': ('Lean 4 theorems about a heap model of the allocation discipline (cells for every options dictionary, metadata dictionary and changes/files/subsections list): after every operation history every cell in use was allocated, a library-allocated cell is referenced from exactly one place among all live trees, two live trees share no library-allocated cell, observers are no-ops, in-place mutation changes no reference, a parse result is entirely fresh; after every step of random interleavings the id() partition of the real objects is compared with the model cells, and mutation visibility / observer purity are checked directly',
+            'PARTIAL: object identity is run-time behaviour; the theorem is about the abstraction, the aliasing itself is observed differentially'),
     'C19': ('Lean 4 theorems about the attribute / equality models: a typed option assignment succeeds iff the value has the declared type and is an allowed choice, then stores exactly that value and nothing else; content assignment iff data type; unknown names rejected; only the addressed section changes; equality reflexive (plain trees) and symmetric (unique keys), equal trees have the same shape, any single option / content change is seen; D16 witness; DOM class table tied to the code by the translator; random assignments with snapshots and tree pairs against the real classes',
             'a failed assignment has no resulting tree in the model (Except): atomicity of the real setters is what the snapshot comparison checks; known finding D16 (1 == True)'),
     'C14': ('Lean 4 theorems for every hunk sequence / every line list: exact geometry for well-formed hunks with and without garbage tolerance, positioned MalformedHunkError for damage and premature end, no other outcome; exhaustive line lists + constructive generator against the real parser',
@@ -56,7 +58,7 @@ def main():
         pid = p['id']
         if (pid in CLAIMED and os.path.exists(os.path.join(VERIF, 'harness', 'props', pid.lower() + '.py')) and
                 os.path.exists(os.path.join(VERIF, 'lean', 'DiffxVerif', 'Audit', pid + '.lean')) and
-                os.path.exists(os.path.join(VERIF, 'lean', 'DiffxVerif', 'Lemmas', {'C08': 'ReaderTotal', 'C01': 'RoundTrip', 'C02': 'RoundTrip', 'C07': 'ReaderFrame', 'C12': 'ReaderFrame', 'C03': 'SpecRead', 'C05': 'Dom', 'C06': 'Dom', 'C13': 'Stats', 'C15': 'Codec', 'C18': 'Dom', 'C19': 'Dom', 'C20': 'Lexer'}.get(pid, 'Split') + '.lean'))):
+                os.path.exists(os.path.join(VERIF, 'lean', 'DiffxVerif', 'Lemmas', {'C08': 'ReaderTotal', 'C01': 'RoundTrip', 'C02': 'RoundTrip', 'C07': 'ReaderFrame', 'C12': 'ReaderFrame', 'C03': 'SpecRead', 'C05': 'Dom', 'C06': 'Dom', 'C13': 'Stats', 'C15': 'Codec', 'C18': 'Heap', 'C19': 'Dom', 'C20': 'Lexer'}.get(pid, 'Split') + '.lean'))):
             text, note = CLAIMED[pid]
             checks.append({
                 'property_id': pid,
